@@ -333,20 +333,25 @@ def groupKeep (fixed : Bool) (nl : Nat) (g : List Idx) : Bool :=
 def filterTable (rows : List PRow) (keep : List Nat) : List PRow :=
   if (dedup keep).length ≠ rows.length then rows.filter (fun r => keep.contains r.id) else rows
 
+/-- the `p`-groups, in order of first occurrence of their key (`grouper`) -/
+def groupsOf (ix : List Idx) : List (List Idx) :=
+  (dedup (ix.map (·.p))).map (fun k => ix.filter (fun i => i.p = k))
+
+/-- `if ids: interactions = Table(View(interactions._data, self._remove(ids, cut)), …)` -/
+def removeRows (rows : List IRow) (ids : List Triple) (cut : Nat) : Except Err (List IRow) :=
+  if ids.isEmpty then .ok rows
+  else match remove (rows.map IRow.triple) ids cut with
+    | .ok sel => .ok (selectRows rows sel)
+    | .error x => .error x
+
 def groupP (fixed : Bool) (r : Result) (lc pc : List Col) : Except Err Result :=
   match mkIndexes r lc pc ((runs r.ints).map (·.1)) with
   | .error x => .error x
   | .ok ix =>
     let nl := (dedup (ix.map (·.l))).length
-    let groups := (dedup (ix.map (·.p))).map (fun k => ix.filter (fun i => i.p = k))
-    let toKeep := ((groups.filter (fun g => groupKeep fixed nl g)).flatten).map (·.t)
-    let toRemove := ((groups.filter (fun g => !groupKeep fixed nl g)).flatten).map (·.t)
-    let ints : Except Err (List IRow) :=
-      if toRemove.isEmpty then .ok r.ints
-      else match remove (r.ints.map IRow.triple) toRemove 0 with
-        | .ok sel => .ok (selectRows r.ints sel)
-        | .error x => .error x
-    match ints with
+    let toKeep := (((groupsOf ix).filter (fun g => groupKeep fixed nl g)).flatten).map (·.t)
+    let toRemove := (((groupsOf ix).filter (fun g => !groupKeep fixed nl g)).flatten).map (·.t)
+    match removeRows r.ints toRemove 0 with
     | .error x => .error x
     | .ok ints =>
       .ok { envs := filterTable r.envs (toKeep.map (·.1)),
@@ -378,12 +383,7 @@ def globalN (r : Result) (n : NSpec) : Except Err Result :=
   | .k n =>
     let toDrop := (ev.filter (fun g => g.2.length < n)).map (·.1)
     let toKeep := (ev.filter (fun g => !(g.2.length < n))).map (·.1)
-    let ints : Except Err (List IRow) :=
-      if toDrop.isEmpty then .ok r.ints
-      else match remove (r.ints.map IRow.triple) toDrop n with
-        | .ok sel => .ok (selectRows r.ints sel)
-        | .error x => .error x
-    match ints with
+    match removeRows r.ints toDrop n with
     | .error x => .error x
     | .ok ints =>
       .ok { envs := filterTableIf (!toDrop.isEmpty) r.envs (toKeep.map (·.1)),
@@ -664,5 +664,17 @@ def groupedYsS (r : Result) (lc : List Col) (x : XSpec) (span : Option Nat) : Ex
   match allEntriesS r lc x span (runs r.ints) with
   | .error err => .error err
   | .ok es => .ok (groupByKey es)
+
+/-- `raw_learners` as the property states it: `where_fin` (spec) when `p` is given — to the
+minimal length when `x` is `'index'` —, then the direct averages per `(l, x)` -/
+def rawLearnersS (r : Result) (x : XSpec) (lc : List Col) (pc : Option (List Col)) (span : Option Nat) :
+    Except Err (List ((Key × Key) × List Rat)) :=
+  if r.ints.isEmpty then .error .coba else
+  match pc with
+  | none => groupedYsS r lc x span
+  | some pc =>
+    match whereFinS r (if x = .index then some .min else none) (some (lc, pc)) with
+    | .error err => .error err
+    | .ok fin => if fin.lrns.isEmpty then .error .coba else groupedYsS fin lc x span
 
 end Coba.C18
